@@ -60,7 +60,10 @@ def main():
             p = subprocess.run([os.path.join(VERIF, "check"), m["prop"]], env=env, capture_output=True, text=True)
             viol = [l for l in p.stdout.splitlines() if l.startswith("VIOLATION")]
             detail = [l for l in p.stdout.splitlines() if l.startswith("  ")][:1]
-            status = "DETECTED" if p.returncode == 1 and viol else ("MISSED" if p.returncode == 0 else "ERROR rc=%d %s" % (p.returncode, p.stderr[-300:]))
+            if m.get("expect") == "quiet":   # property-preserving change: the check must NOT alarm
+                status = "DETECTED(quiet as required)" if p.returncode == 0 else "FALSE-ALARM rc=%d" % p.returncode
+            else:
+                status = "DETECTED" if p.returncode == 1 and viol else ("MISSED" if p.returncode == 0 else "ERROR rc=%d %s" % (p.returncode, p.stderr[-300:]))
             results.append((m["id"], m["prop"], "%s (%.0fs)%s %s" % (status, time.time() - t0, tests, detail[0].strip()[:150] if detail else "")))
             print(*results[-1], flush=True)
             shutil.rmtree(root)
